@@ -333,3 +333,39 @@ V("c12-plane-distance-sign", "fault", "C12", P + "polyhedron.py", "face_normal, 
 V("c12-q-times-length-squared", "fault", "C12", P + "sphere.py", "qr = np.sqrt(q_sqs[~zero_q]) * self.radius", "qr = np.sqrt(q_sqs[~zero_q]) * self.radius**2", rule="DEG")
 V("c12-polygon-no-midpoint-phase", "fault", "C12", P + "polygon.py", "f_ns * 1j * np.exp(-1j * midpoints_dot_qs), axis=0", "f_ns * 1j, axis=0", rule="FF-4")
 V("c12-rw-density-form", "rewrite", "C12", P + "polyhedron.py", "        form_factor *= density\n        return form_factor", "        return density * form_factor")
+
+# ------------------------------------------------------------------------------------------ C01
+V("c01-swap-sub-lists", "fault", "C01", P + "convex_polyhedron.py",
+  "        i_xy = i_nm(n, q, q2, w, at, sub=[0, 1])\n        i_xz = i_nm(n, q, q2, w, at, sub=[0, 2])",
+  "        i_xy = i_nm(n, q, q2, w, at, sub=[0, 2])\n        i_xz = i_nm(n, q, q2, w, at, sub=[0, 1])", rule="AXI")
+V("c01-ixx-wrong-axes", "fault", "C01", P + "convex_polyhedron.py", "i_xx = i_nn(nt, q3, w, at, sub=[1, 2])", "i_xx = i_nn(nt, q3, w, at, sub=[0, 1])", rule="AXI")
+V("c01-quadrature-weight", "fault", "C01", P + "convex_polyhedron.py", "w = np.array([[-9 / 16, 25 / 48, 25 / 48, 25 / 48]]).T", "w = np.array([[-9 / 16, 25 / 48, 25 / 48, 27 / 48]]).T", rule="QUAD")
+V("c01-quadrature-node", "fault", "C01", P + "convex_polyhedron.py", "[[1], [1], [3]],", "[[1], [1], [2]],", rule="QUAD")
+V("c01-quadrature-divisor", "fault", "C01", P + "convex_polyhedron.py", "            q /= 5\n", "            q /= 4\n", rule="QUAD")
+V("c01-nm-normal-index", "fault", "C01", P + "convex_polyhedron.py",
+  "                        q2[:, sub[0], :] * q[:, sub[1], :],\n                        n[:, sub[0]],", "                        q2[:, sub[0], :] * q[:, sub[1], :],\n                        n[:, sub[1]],", rule="AXI")
+V("c01-display-asymmetric", "fault", "C01", P + "convex_polyhedron.py",
+  "return np.array([[i_xx, i_xy, i_xz], [i_xy, i_yy, i_yz], [i_xz, i_yz, i_zz]])\n\n    def diagonalize_inertia",
+  "return np.array([[i_xx, i_xy, i_xz], [i_xy, i_yy, i_yz], [i_yz, i_xz, i_zz]])\n\n    def diagonalize_inertia", rule="AXI")
+V("c01-abs-before-sum", "fault", "C01", P + "convex_polyhedron.py",
+  "signed_volume = np.sum(np.linalg.det(self._vertices[self._simplices]) / 6)", "signed_volume = np.sum(np.abs(np.linalg.det(self._vertices[self._simplices])) / 6)", rule="DET-SIGN")
+V("c01-parallel-axis-sign", "fault", "C01", P + "utils.py", "return inertia_tensor + volume * (inner * np.eye(3) - outer)", "return inertia_tensor + volume * (inner * np.eye(3) + outer)", rule="PAX")
+V("c01-parallel-axis-outer-inner", "fault", "C01", P + "utils.py", "outer = np.dot(displacement.T, displacement)", "outer = np.dot(displacement, displacement.T)", rule="PAX")
+V("c01-centroid-degree", "fault", ["C01", "C09"], P + "convex_polyhedron.py", "            / (48 * self._volume)\n", "            / (48 * self._area)\n", rule=None)
+V("c01-inn-constant", "fault", "C01", P + "convex_polyhedron.py", 'nt[sub, :], at, q3[:, sub, :], w) / 6', 'nt[sub, :], at, q3[:, sub, :], w) / 3', rule="QUAD")
+V("c01-rw-weights-decimal", "rewrite", "C01", P + "convex_polyhedron.py", "w = np.array([[-9 / 16, 25 / 48, 25 / 48, 25 / 48]]).T", "w = np.array([[-0.5625, 25 / 48, 25 / 48, 25 / 48]]).T")
+
+# ------------------------------------------------------------------------------------------ C02
+V("c02-abs-tetrahedra", "fault", "C02", P + "polyhedron.py", "volumes = np.linalg.det(simplices) / 6", "volumes = np.abs(np.linalg.det(simplices) / 6)", rule="DET-SIGN")
+V("c02-lambda-wrong-axis", "fault", "C02", P + "polyhedron.py", "i_yy = triangle_integrate(lambda t: t[:, 0] ** 2 + t[:, 2] ** 2)", "i_yy = triangle_integrate(lambda t: t[:, 0] ** 2 + t[:, 1] ** 2)", rule="AXI")
+V("c02-lambda-sign", "fault", "C02", P + "polyhedron.py", "i_xz = triangle_integrate(lambda t: -t[:, 0] * t[:, 2])", "i_xz = triangle_integrate(lambda t: t[:, 0] * t[:, 2])", rule="AXI")
+V("c02-tet-weight", "fault", "C02", P + "polyhedron.py", "return np.sum((volumes / 20) * (fv1 + fv2 + fv3 + fvsum))", "return np.sum((volumes / 10) * (fv1 + fv2 + fv3 + fvsum))", rule="TET")
+V("c02-tet-missing-point", "fault", "C02", P + "polyhedron.py", "return np.sum((volumes / 20) * (fv1 + fv2 + fv3 + fvsum))", "return np.sum((volumes / 20) * (fv1 + fv2 + fv3 + fv3))", rule="TET")
+V("c02-volume-offset-sign", "fault", "C02", P + "polyhedron.py", "        ds = -self._equations[:, 3]\n", "        ds = self._equations[:, 3]\n", rule="SIGN-1")
+V("c02-writer-offset-sign", "fault", "C02", P + "polyhedron.py", "self._equations[i, 3] = -normal.dot(self.vertices[face[0]])", "self._equations[i, 3] = normal.dot(self.vertices[face[0]])", rule="SIGN-1")
+V("c02-distances-subtract", "fault", "C02", P + "polyhedron.py", "distances = dots + self._equations[:, 3]", "distances = dots - self._equations[:, 3]", rule="SIGN-1")
+V("c02-volume-degree", "fault", ["C02", "C09"], P + "polyhedron.py", "return np.sum(ds * self.get_face_area()) / 3", "return np.sum(ds * ds * self.get_face_area()) / 3", rule=None)
+V("c02-display-slot", "fault", "C02", P + "polyhedron.py",
+  "        return np.array([[i_xx, i_xy, i_xz], [i_xy, i_yy, i_yz], [i_xz, i_yz, i_zz]])\n\n    @property\n    def centroid",
+  "        return np.array([[i_xx, i_xy, i_xz], [i_xy, i_zz, i_yz], [i_xz, i_yz, i_yy]])\n\n    @property\n    def centroid", rule="AXI")
+V("c02-rw-lambda-reorder", "rewrite", "C02", P + "polyhedron.py", "i_xx = triangle_integrate(lambda t: t[:, 1] ** 2 + t[:, 2] ** 2)", "i_xx = triangle_integrate(lambda t: t[:, 2] ** 2 + t[:, 1] ** 2)")
